@@ -105,9 +105,15 @@ class Base32Decoder:
             if custom_alphabet is not None:
                 data_dec = _Base32Utils.TranslateAlphabet(data_dec, custom_alphabet, Base32Const.ALPHABET)
 
-            return base64.b32decode(data_dec)
+            dec_bytes = base64.b32decode(data_dec)
         except binascii.Error as ex:
             raise ValueError("Invalid Base32 string") from ex
+
+        # Only the canonical encoding is accepted: characters outside the selected alphabet and
+        # non-zero unused bits in the last character are refused
+        if Base32Encoder.EncodeNoPadding(dec_bytes, custom_alphabet) != data.rstrip(Base32Const.PADDING_CHAR):
+            raise ValueError("Invalid Base32 string (not canonical)")
+        return dec_bytes
 
 
 class Base32Encoder:
